@@ -15,6 +15,7 @@ package bbsblssignatureproof2020
 // It uses BLS12-381 pairing-friendly curve (https://tools.ietf.org/html/draft-irtf-cfrg-pairing-friendly-curves-03).
 
 import (
+	"sort"
 	"strings"
 
 	"github.com/hyperledger/aries-framework-go/component/models/ld/processor"
@@ -54,7 +55,52 @@ func (s *Suite) GetCanonicalDocument(doc map[string]interface{}, opts ...process
 		}
 	}
 
-	return s.jsonldProcessor.GetCanonicalDocument(doc, opts...)
+	canonical, err := s.jsonldProcessor.GetCanonicalDocument(doc, opts...)
+	if err != nil {
+		return nil, err
+	}
+
+	return restoreBlankNodeOrder(canonical), nil
+}
+
+// restoreBlankNodeOrder puts the statements of a derived document back into the order the signer had them in.
+// The derived document names the signer's blank nodes <urn:bnid:_:c14nN>, so its canonical form is sorted with these
+// IRIs, while the signed messages were sorted with the blank node identifiers _:c14nN themselves. The two orders differ
+// as soon as another IRI of the document sorts after "urn:bnid:" (e.g. a urn:uuid: credential id).
+func restoreBlankNodeOrder(canonical []byte) []byte {
+	const blankNodeIRI = "<urn:bnid:_:c14n"
+
+	if !strings.Contains(string(canonical), blankNodeIRI) {
+		return canonical
+	}
+
+	rows := strings.Split(string(canonical), "\n")
+	keys := make(map[string]string, len(rows))
+
+	for _, row := range rows {
+		key := row
+		for i := strings.Index(key, blankNodeIRI); i >= 0; i = strings.Index(key, blankNodeIRI) {
+			end := strings.Index(key[i:], ">")
+			if end < 0 {
+				break
+			}
+
+			key = key[:i] + key[i+len("<urn:bnid:"):i+end] + key[i+end+1:]
+		}
+
+		keys[row] = key
+	}
+
+	sort.SliceStable(rows, func(i, j int) bool {
+		// empty rows (the trailing line break) stay at the end
+		if rows[i] == "" || rows[j] == "" {
+			return rows[i] != "" && rows[j] == ""
+		}
+
+		return keys[rows[i]] < keys[rows[j]]
+	})
+
+	return []byte(strings.Join(rows, "\n"))
 }
 
 // GetDigest returns the doc itself as we would process N-Quads statements as messages to be signed/verified.
